@@ -5,7 +5,8 @@ import os
 
 from harness import core
 
-KEYS = ["k1", "k2", "k3"]
+KEYS = ["k1", "k2", "k3", "address_in"]      # the last: a dynamic attribute whose key is spelt like a member
+PLAIN_KEYS = KEYS[:3]
 # every data member Repeater.__init__ creates (= Builtin of spec/Storage.tla)
 BUILTIN = ["address_in", "address_out", "address_nat", "callsign", "serial", "dmr_id", "snmp_enabled", "nat_enabled"]
 NONEV = {"t": "n", "s": "", "ip": "", "port": 0}
@@ -75,8 +76,11 @@ class Sut:
         for n, rec in enumerate(recs):
             ev.append(self.apply(act("match_incoming", addr=("setup%d" % n, 10_000 + n), auto=True)))
             patch = [(k, dec(rec["f"][k])) for k in BUILTIN]
-            patch += [(k, dec(v)) for k, v in rec["attrs"].items() if v["t"] != "n"]
+            patch += [(k, dec(v)) for k, v in rec["attrs"].items() if v["t"] != "n" and k not in BUILTIN]
             ev.append(self.apply(act("patch", id=n + 1, patch=patch)))
+            for k, v in rec["attrs"].items():
+                if v["t"] != "n" and k in BUILTIN:       # a patch would set the member of that name
+                    ev.append(self.apply(act("attr_write", id=n + 1, key=k, val=dec(v))))
         self.sync()
         return ev
 
@@ -147,7 +151,7 @@ def random_history(rng, n):
         def rpatch():
             p = []
             for _ in range(rng.choice([0, 0, 1, 1, 2, 3])):
-                k = rng.choice(BUILTIN + KEYS * 3)
+                k = rng.choice(BUILTIN + PLAIN_KEYS * 3)
                 if k in ("address_out", "address_in", "address_nat"):
                     if k == "address_in" and rng.random() < 0.7:
                         continue
@@ -184,7 +188,8 @@ def random_history(rng, n):
             elif op == "attr_read":
                 a = act(op, id=i, key=rng.choice(KEYS))
             elif op == "attr_write":
-                a = act(op, id=i, key=rng.choice(KEYS), val=rng.choice(["x", "y", "z", None]))
+                k = rng.choice(KEYS)
+                a = act(op, id=i, key=k, val=rng.choice(addrs + [None]) if k in BUILTIN else rng.choice(["x", "y", "z", None]))
             else:
                 a = act(op, id=i, key=rng.choice(KEYS))
         ev.append(sut.apply(a))
